@@ -17,7 +17,7 @@ def statusOf : DRes → String
   | .stray => "S"
   | .incomplete => "E"
 
-def handle (st : Stats) (line : String) : IO Stats := do
+def handle (sigs : SigRef) (st : Stats) (line : String) : IO Stats := do
   match fields line with
   | [chunk, inh, status, storedh, consumedS, hopsS, pS, nS, nreadsS] =>
     match unhex inh, unhex storedh, parsePlan chunk with
@@ -37,6 +37,7 @@ def handle (st : Stats) (line : String) : IO Stats := do
             hopsS.toInt? == some (Int.ofNat (hopsOf (inp.take (inp.length - rest.length))))
         | "S", .stray => true
         | "E", .incomplete => true
+        | "E", _ => plan.hasFail          -- the pure automaton knows nothing about failing reads; `sblast` below does
         | _, _ => false
       if !agree then
         let ms := match model with
@@ -62,28 +63,31 @@ def handle (st : Stats) (line : String) : IO Stats := do
       /- ### chunked I/O (theorems C05_chunking, C05_chunking_anyscript, C05_chunking_ssin, C05_chunking_indep) -/
       -- DISAGREE channel: the composed model `sblast` (substdio_get(1) over ssin, 1024-byte buffer) run with the harness's
       -- read plan as the read script must do exactly what the implementation did, including the state `ssin` is left in
-      let script := plan.script (stream.length + 4)
-      let s0 := Nq.SmtpIO.istart 1024 stream script
-      let mres := match skipLoop (plan.skip + 2) s0 plan.skip with
-        | some s1 => Nq.SmtpIO.sblast s1
-        | none => .died
-      let cagree := match status, mres with
-        | "A", .accepted body s' =>
-            body == stored && consumedS.toInt? == some (Int.ofNat (inp.length - (s'.data ++ s'.src).length)) &&
-            pS.toNat? == some s'.p && nS.toNat? == some s'.n && nreadsS.toNat? == some (script.length - s'.rs.length)
-        | "S", .stray => true
-        | "E", .died => true
-        | _, _ => false
-      if !cagree then
-        let ms := match mres with
-          | .accepted body s' => s!"A {hex body} {inp.length - (s'.data ++ s'.src).length} p={s'.p} n={s'.n} nreads={script.length - s'.rs.length}"
-          | .stray => "S" | .died => "E"
-        IO.println s!"DISAGREE in={inh} chunk={chunk} chunked-model impl={status} {storedh} {consumedS} p={pS} n={nS} nreads={nreadsS} model={ms}"
-        st := { st with disagree := st.disagree + 1 }
+      if plan.cost stream.length 1024 > costBudget then
+        st := st.bump "chunked-model-skipped(cost)"
+      else
+        let script := plan.script (stream.length + 4)
+        let s0 := Nq.SmtpIO.istart 1024 stream script
+        let mres := match skipLoop (plan.skip + 2) s0 plan.skip with
+          | some s1 => Nq.SmtpIO.sblast s1
+          | none => .died
+        let cagree := match status, mres with
+          | "A", .accepted body s' =>
+              body == stored && consumedS.toInt? == some (Int.ofNat (inp.length - (s'.data ++ s'.src).length)) &&
+              pS.toNat? == some s'.p && nS.toNat? == some s'.n && nreadsS.toNat? == some (script.length - s'.rs.length)
+          | "S", .stray => true
+          | "E", .died => true
+          | _, _ => false
+        if !cagree then
+          let ms := match mres with
+            | .accepted body s' => s!"A {hex body} {inp.length - (s'.data ++ s'.src).length} p={s'.p} n={s'.n} nreads={script.length - s'.rs.length}"
+            | .stray => "S" | .died => "E"
+          IO.println s!"DISAGREE in={inh} chunk={chunk} chunked-model impl={status} {storedh} {consumedS} p={pS} n={nS} nreads={nreadsS} model={ms}"
+          st := { st with disagree := st.disagree + 1 }
       -- ORACLE channel (C05_chunking_indep on the implementation's behaviour): every split of the same stream gives the same
       -- verdict, stored bytes and consumed count (plans with a failing read are excluded: they may legitimately die)
       if !plan.hasFail then
-        match ← checkSig h chunk s!"{status} {hashBytes stored} {stored.length} {consumedS}" with
+        match ← checkSig sigs h chunk s!"{status} {hashBytes stored} {stored.length} {consumedS}" with
         | some first =>
           IO.println s!"ORACLE in={inh} chunk={chunk} impl={status} stored={storedh} consumed={consumedS} chunking-dependent: differs from the run under plan {first}"
           st := { st with oracle := st.oracle + 1 }
@@ -95,4 +99,6 @@ def handle (st : Stats) (line : String) : IO Stats := do
     | _, _, _ => IO.println s!"DISAGREE unparsable line {line}"; return { st with disagree := st.disagree + 1 }
   | _ => IO.println s!"DISAGREE unparsable line {line}"; return { st with disagree := st.disagree + 1 }
 
-def main : IO Unit := runDriver handle
+def main : IO Unit := do
+  let sigs : SigRef ← IO.mkRef {}
+  runDriver (handle sigs)
